@@ -8,6 +8,7 @@ import (
 	"os"
 	"path/filepath"
 	"runtime"
+	"strconv"
 	"testing"
 	"time"
 
@@ -36,6 +37,13 @@ type Case struct {
 	// line that stays silent), then the data goes on.
 	IdleBurstAt  int `json:"idle_burst_at_call"`
 	IdleBurstLen int `json:"idle_burst_len"`
+	// SourcePauseMs > 0: the source delivers the bytes before offset SourcePauseAt, then nothing for that
+	// long (input still open), then the rest - a line that goes quiet in the middle of a frame.
+	SourcePauseAt int `json:"source_pause_at_byte"`
+	SourcePauseMs int `json:"source_pause_ms"`
+	// DisplayLogFull / RecordLogFull: today's readable log / record file is a symbolic link to /dev/full -
+	// every write to it fails (a full log partition).  The output must be unaffected.
+	DisplayLogFull bool `json:"display_log_filestore_full"`
 }
 
 type chunkReader struct {
@@ -46,6 +54,8 @@ type chunkReader struct {
 	eofWith                  bool
 	burstAt, burstLen, reads int
 	prog                     *appsup.Progress
+	pauseAt, pauseMs         int
+	paused                   bool
 }
 
 func (r *chunkReader) Read(p []byte) (int, error) {
@@ -60,6 +70,16 @@ func (r *chunkReader) Read(p []byte) (int, error) {
 	if len(r.chunks) > 0 {
 		if c := r.chunks[r.call%len(r.chunks)]; c > 0 && c < n {
 			n = c
+		}
+	}
+	if r.pauseMs > 0 && !r.paused {
+		if r.pos < r.pauseAt {
+			if n > r.pauseAt-r.pos {
+				n = r.pauseAt - r.pos
+			}
+		} else {
+			r.paused = true
+			time.Sleep(time.Duration(r.pauseMs) * time.Millisecond)
 		}
 	}
 	r.call++
@@ -93,6 +113,17 @@ func check(c Case, o *stats.Obs) error {
 	}
 	defer os.RemoveAll(dir)
 	cfg := &jsonconfig.Config{DisplayMessages: c.Display, RecordMessages: c.Record, MessageLogDirectory: dir}
+	if c.DisplayLogFull && c.Display {
+		os.MkdirAll(dir, 0o755)
+		now := time.Now()
+		for _, d := range []time.Time{now, now.Add(24 * time.Hour)} {
+			os.Symlink("/dev/full", filepath.Join(dir, fmt.Sprintf("rtcm.%04d-%02d-%02d.txt", d.Year(), int(d.Month()), d.Day())))
+		}
+		o.Class("display-log-filestore-full")
+	}
+	if c.SourcePauseMs > 0 {
+		o.Class("source-quiet-mid-stream")
+	}
 	prog := &appsup.Progress{}
 	w := &appsup.LatencyWriter{Prog: prog}
 	for _, d := range c.Delays {
@@ -100,7 +131,7 @@ func check(c Case, o *stats.Obs) error {
 	}
 	done := make(chan struct{})
 	go func() {
-		rtcmfilter.HandleMessages(drive.StartTime, &chunkReader{prog: prog, data: input, chunks: c.Chunks, eofWith: c.EOFWith, burstAt: c.IdleBurstAt, burstLen: c.IdleBurstLen}, w, cfg)
+		rtcmfilter.HandleMessages(drive.StartTime, &chunkReader{prog: prog, data: input, chunks: c.Chunks, eofWith: c.EOFWith, burstAt: c.IdleBurstAt, burstLen: c.IdleBurstLen, pauseAt: c.SourcePauseAt, pauseMs: c.SourcePauseMs}, w, cfg)
 		close(done)
 	}()
 	if !appsup.AwaitProgress(done, prog, 60*time.Second) {
@@ -125,7 +156,7 @@ func check(c Case, o *stats.Obs) error {
 			return fmt.Errorf("record file does not hold the same bytes as the output: %s\n input %x", appsup.Diff(got, want), input)
 		}
 	}
-	if c.Display {
+	if c.Display && !c.DisplayLogFull {
 		entries := func(b []byte) int {
 			n := 0
 			for _, l := range bytes.Split(b, []byte("\n")) {
@@ -170,6 +201,7 @@ func gen1(t *rapid.T) Case {
 		c.IdleBurstAt = rapid.IntRange(1, 12).Draw(t, "idleBurstAt")
 		c.IdleBurstLen = rapid.SampledFrom([]int{99, 100, 101, 150, 400}).Draw(t, "idleBurstLen")
 	}
+	c.DisplayLogFull = c.Display && rapid.IntRange(0, 4).Draw(t, "displayLogFull") == 2
 	return c
 }
 
@@ -191,6 +223,24 @@ func genStall(t *rapid.T) Case {
 	ms := 5500
 	if os.Getenv("VERIF_TIER") == "thorough" {
 		ms = 12000
+	}
+	sourceQuiet := rapid.Bool().Draw(t, "sourceQuiet")
+	if sh, err := strconv.Atoi(os.Getenv("VERIF_SHARD")); err == nil {
+		sourceQuiet = sh%2 == 1 // both kinds in every run, however few cases it has
+	}
+	if sourceQuiet {
+		// instead of the writer, the source stalls - in the middle of a frame or between two
+		off := 0
+		var mids []int
+		for _, g := range c.Stream.Segs {
+			if g.Kind == "valid" {
+				mids = append(mids, off+len(g.Data)/2, off+4, off+len(g.Data)-2, off)
+			}
+			off += len(g.Data)
+		}
+		c.SourcePauseAt = rapid.SampledFrom(mids[4:]).Draw(t, "sourcePauseAt")
+		c.SourcePauseMs = ms
+		return c
 	}
 	c.Delays = []int{ms * 1000, 0, 0, 0, 0, 0, 0, 0, 0, 0, 0, 0, 0, 0, 0, 0}
 	return c
